@@ -157,12 +157,15 @@ pub struct XEnc {
     pub reorder_members: bool,
     /// relationship ids do not follow the sheet order (sheet i <-> rId(n+1-i)) and are listed in reverse
     pub rid_shuffle: bool,
+    /// every XML part indented: a line break and two spaces per level between adjacent tags (never between an opening tag
+    /// and its own closing tag, never next to text)
+    pub indent: bool,
 }
 impl Default for XEnc {
     fn default() -> Self {
         XEnc {
             prefix: false, row_r: RMode::Explicit, cell_r: RMode::Explicit, dim: DimMode::Exact, target: TargetMode::Relative,
-            upper_parts: false, method: Method::Deflated, explicit_t_n: false, empty_rows: false, reorder_members: false, rid_shuffle: false,
+            upper_parts: false, method: Method::Deflated, explicit_t_n: false, empty_rows: false, reorder_members: false, rid_shuffle: false, indent: false,
         }
     }
 }
@@ -457,7 +460,7 @@ pub fn parts(b: &XBook, enc: &XEnc) -> Vec<(String, Vec<u8>)> {
     head.push(("xl/workbook.xml".into(), workbook_xml(b, enc)));
     head.push(("xl/_rels/workbook.xml.rels".into(), rels));
     let mut all: Vec<(String, Vec<u8>)> = vec![];
-    let to_b = |v: Vec<(String, String)>| v.into_iter().map(|(a, b)| (a, b.into_bytes())).collect::<Vec<_>>();
+    let to_b = |v: Vec<(String, String)>| v.into_iter().map(|(a, b)| (a, if enc.indent { indent_xml(&b) } else { b }.into_bytes())).collect::<Vec<_>>();
     all.extend(to_b(head));
     if enc.reorder_members {
         all.extend(to_b(sheet_parts));
@@ -475,6 +478,36 @@ pub fn parts(b: &XBook, enc: &XEnc) -> Vec<(String, Vec<u8>)> {
         }
     }
     all
+}
+
+/// White space between adjacent tags only (`</a><b>`, `<a><b>`, `<a/><b>`, `</a></b>`), so no text node of the document changes.
+pub fn indent_xml(x: &str) -> String {
+    let b = x.as_bytes();
+    let mut out = String::with_capacity(x.len() * 2);
+    let mut depth = 0usize;
+    let mut prev_open = false; // the previous token was an opening tag
+    let mut text_before = false; // the previous token was text (incl. CDATA)
+    let mut i = 0;
+    while i < b.len() {
+        if x[i..].starts_with("<![CDATA[") {
+            // a CDATA section is text
+            let end = i + x[i..].find("]]>").unwrap() + 3;
+            out.push_str(&x[i..end]); prev_open = false; text_before = true; i = end;
+        } else if b[i] == b'<' {
+            let end = i + b[i..].iter().position(|c| *c == b'>').unwrap();
+            let tag = &x[i..=end];
+            let closing = tag.starts_with("</");
+            let selfc = tag.ends_with("/>") || tag.starts_with("<?");
+            if closing { depth = depth.saturating_sub(1); }
+            let after_text = std::mem::replace(&mut text_before, false);
+            if i > 0 && b[i - 1] == b'>' && !after_text && !(closing && prev_open) && !x[..i].ends_with("?>\n") { out.push('\n'); for _ in 0..depth { out.push_str("  "); } }
+            out.push_str(tag);
+            prev_open = !closing && !selfc;
+            if prev_open { depth += 1; }
+            i = end + 1;
+        } else { let n = b[i..].iter().position(|c| *c == b'<').unwrap_or(b.len() - i); out.push_str(&x[i..i + n]); prev_open = false; text_before = true; i += n; }
+    }
+    out
 }
 
 pub fn write(b: &XBook, enc: &XEnc) -> Vec<u8> {
